@@ -191,4 +191,26 @@ def clampRR (lo hi : UInt32) (r : RR) : RR :=
   let t := if lo > 0 ∧ r.ttl < lo then lo else r.ttl
   { r with ttl := if hi > 0 ∧ t > hi then hi else t }
 
+/-! Dump and reload (`writeDump` / `readDump`, `dump_file` + restart, `/dump` + `/load_dump`). -/
+
+/-- What `writeDump` writes for an entry: the three times as Unix seconds. -/
+def dumpEntry (it : Item) : Item :=
+  { it with stored := it.stored / sec * sec, msgExp := it.msgExp / sec * sec, cacheExp := it.cacheExp / sec * sec }
+
+/-- `readDump` for one dumped entry `d` at `now`, in an instance configured with `lazyTtl`.
+`keepsTimes = true` is the code as written: the entry is stored with the dumped cache expiry. With
+`keepsTimes = false` the cache expiry is derived again from the local configuration (what `saveRespToCache`
+would choose for a positive answer). `cache.Store` refuses an entry whose expiry lies before `now`. -/
+def loadEntry (keepsTimes : Bool) (lazyTtl : Int) (d : Item) (now : Nat) : Option Item :=
+  let ce := if keepsTimes then d.cacheExp else if lazyTtl > 0 then d.stored + lazyTtl.toNat * sec else d.msgExp
+  if ce < now then none else some { d with cacheExp := ce }
+
+/-- An answer stored at `t0` by an instance running with `writerLazy`, dumped, loaded at `tl` by an instance
+running with `readerLazy`, asked at `t`. `none`: never stored. -/
+def reloadRun (keepsTimes : Bool) (writerLazy readerLazy : Int) (staleTtl : UInt32) (m : Msg) (t0 tl t : Nat) : Option Served :=
+  (store writerLazy m t0).map fun it =>
+    match loadEntry keepsTimes readerLazy (dumpEntry it) tl with
+    | none => .miss
+    | some d => serve (decide (readerLazy > 0)) staleTtl d t t
+
 end Model.C05
